@@ -76,5 +76,10 @@ fn main() {
             2
         }
     };
+    if let Some(tool) = progress::tool_timed_out() {
+        eprintln!("a tool under test did not terminate: {tool}");
+        println!("TOOL-HANG {tool}");
+        std::process::exit(progress::TOOL_HANG_EXIT);
+    }
     std::process::exit(code);
 }
